@@ -110,7 +110,8 @@ def parseFloat (s : String) : Float :=
 def kercReply (name : String) (binds : List String) : String :=
   let tbl : List (String × E) := [("residual", Gen.K.residual), ("boukampWeight", Gen.K.boukampWeight), ("chisqrTerm", Gen.K.chisqrTerm),
     ("kk_kth_Y", Gen.K.kk_kth_Y), ("kk_kth_Z", Gen.K.kk_kth_Z), ("kk_cap_Y", Gen.K.kk_cap_Y), ("kk_cap_Z", Gen.K.kk_cap_Z),
-    ("kk_ind_Y", Gen.K.kk_ind_Y), ("kk_ind_Z", Gen.K.kk_ind_Z)]
+    ("kk_ind_Y", Gen.K.kk_ind_Y), ("kk_ind_Z", Gen.K.kk_ind_Z),
+    ("zhit_rec_Y", Gen.K.zhit_rec_Y), ("zhit_rec_Z", Gen.K.zhit_rec_Z), ("zhit_offset_residual", Gen.K.zhit_offset_residual)]
   match tbl.find? (·.1 = name) with
   | none => "err no-kernel"
   | some (_, e) =>
